@@ -43,6 +43,24 @@ Theorem C05_gmrf_neumann_cov_partial : forall (F : fieldType) (n m : nat) (Pe : 
 Proof. exact gmrf_neumann_cov. Qed.
 Print Assumptions C05_gmrf_neumann_cov_partial.
 
+(* neumann boundary, regularisation eps as a VARIABLE (full, every eps): exact identity and explicit deviation from the
+   generalised-inverse identity.  The statement "C -> pseudo-inverse of prec P as eps -> 0" itself stays _partial (a norm bound
+   on C, uniform in eps, is not formalised); what is proved is that the deviation is eps (P C + C P) + eps^2 C up to prec. *)
+Theorem C05_gmrf_neumann_cov_eps : forall (F : fieldType) (n m : nat) (D : 'M[F]_(m, n)) (T : 'M[F]_(n, m)) (r prec eps : F),
+  let P := D^T *m D in let Pe := P + eps%:M in let C := T *m T^T in
+  r * r = prec -> (r *: Pe) *m T = D^T ->
+  (prec *: Pe) *m C *m Pe = P /\
+  prec *: (P *m C *m P) = P - prec *: (eps *: (P *m C + C *m P) + (eps * eps) *: C).
+Proof. exact gmrf_neumann_cov_eps. Qed.
+Print Assumptions C05_gmrf_neumann_cov_eps.
+
+(* what a spectral (DFT-type) sampler must do: pair each weight with the eigenvalue of the SAME basis vector *)
+Theorem C05_spectral_pairing : forall (F : fieldType) (n : nat) (U L W2 : 'M[F]_n),
+  U^T *m U = 1%:M -> L *m W2 *m L = L ->
+  let P := U *m L *m U^T in let C := U *m W2 *m U^T in P *m C *m P = P.
+Proof. exact spectral_pairing. Qed.
+Print Assumptions C05_spectral_pairing.
+
 (* ---------------- the same theorems for matrices as lists of rows (deepening round) ----------------
    ldot / lcol / ltr / lmm / lid (mc/C05_Link.v) are the recursions of the executable model's qdot / qcol / qtr / qmm / qid
    over an arbitrary field; wf m n = "m rows of length n".  gauss_ok / gmrf_neumann_ok check the hypotheses on the
